@@ -131,7 +131,8 @@ func (s *scanner) coalesce(result, partial *pb.Result) (*pb.Result, bool) {
 		return result, false
 	}
 
-	if len(partial.Cell) > 0 && !bytes.Equal(result.Cell[0].Row, partial.Cell[0].Row) {
+	if len(partial.Cell) > 0 && len(result.Cell) > 0 &&
+		!bytes.Equal(result.Cell[0].Row, partial.Cell[0].Row) {
 		// new row
 		result.Partial = proto.Bool(false)
 		return result, false
